@@ -532,6 +532,64 @@ def grid_cells(family, ck, seed, scale):
                             E.tag = 'use-of-hostile-object'; fam = {'CKM_RSA_PKCS_KEY_PAIR_GEN': 'rsa', 'CKM_EC_KEY_PAIR_GEN': 'ec', 'CKM_EC_EDWARDS_KEY_PAIR_GEN': 'ed', 'CKM_DSA_KEY_PAIR_GEN': 'dsa', 'CKM_DH_PKCS_KEY_PAIR_GEN': 'dh'}[m]
                             use_key(E.c, E.ck, E.S, r['hpriv'], fam + '-priv', E.haes); use_key(E.c, E.ck, E.S, r['hpub'], fam + '-pub', E.haes)
                     add('tmpl=' + lab, f'C_GenerateKeyPair {m} {which}', f)
+    elif family == 'tmplsize':
+        # every template-taking entry point with WELL-FORMED templates of 0, 1, 27..34, 40, 64 entries (the library copies templates
+        # into fixed 32-entry arrays in several places); C_GenerateKeyPair varies its two templates independently
+        SZ = [0, 1, 27, 28, 29, 30, 31, 32, 33, 34, 40, 64]
+        def sized(E, pairs, n):
+            """the template `pairs` brought to exactly n entries: truncated, or padded with duplicates of harmless attributes"""
+            t = E.T(pairs)[:n]; i = 0
+            while len(t) < n: t.append({'t': E.ck.CKA_LABEL, 'hex': b'padded'.hex()} if i % 2 == 0 else {'t': E.ck.CKA_ID, 'hex': b'pad-id'.hex()}); i += 1
+            return t
+        R = K.RAW; bits = 512 if scale <= 1 else 1024
+        pairs = [('CKM_RSA_PKCS_KEY_PAIR_GEN', [('CKA_MODULUS_BITS', bits), ('CKA_PUBLIC_EXPONENT', bytes([1, 0, 1]))], 'rsa'), ('CKM_EC_KEY_PAIR_GEN', [('CKA_EC_PARAMS', bytes.fromhex(R['ec_p256']['CKA_EC_PARAMS']))], 'ec'),
+                 ('CKM_EC_EDWARDS_KEY_PAIR_GEN', [('CKA_EC_PARAMS', bytes.fromhex(R['ed25519']['CKA_EC_PARAMS']))], 'ed'), ('CKM_DSA_KEY_PAIR_GEN', [(a, bytes.fromhex(R['dsa1024'][a])) for a in ('CKA_PRIME', 'CKA_SUBPRIME', 'CKA_BASE')], 'dsa'),
+                 ('CKM_DH_PKCS_KEY_PAIR_GEN', [(a, bytes.fromhex(R['dh1024'][a])) for a in ('CKA_PRIME', 'CKA_BASE')], 'dh')]
+        for m, pub, fam_ in pairs:
+            PUB = [('CKA_TOKEN', False), ('CKA_VERIFY', True)] + pub; PRIV = [('CKA_TOKEN', False), ('CKA_SIGN', True), ('CKA_SENSITIVE', False), ('CKA_EXTRACTABLE', True)]
+            combos = [(None, n) for n in SZ] + [(n, None) for n in SZ] + [(31, 31), (32, 32), (33, 33), (64, 64), (28, 29), (29, 28)]
+            for np_, nq in combos:
+                def f(E, m=m, PUB=PUB, PRIV=PRIV, np_=np_, nq=nq, fam_=fam_):
+                    a = sized(E, PUB, max(np_, len(PUB)) if np_ is not None and np_ >= len(PUB) else (np_ if np_ is not None else len(PUB)))
+                    b = sized(E, PRIV, nq if nq is not None else len(PRIV))
+                    r = E.c('C_GenerateKeyPair', s=E.S, mech=E.M(m), pub=a, priv=b)
+                    if r['rv'] == 0: use_key(E.c, E.ck, E.S, r['hpriv'], fam_ + '-priv', E.haes); E.c('C_GetAttributeValue', s=E.S, o=r['hpub'], tmpl=[{'t': E.ck.CKA_LABEL, 'buf': 64}, {'t': E.ck.CKA_ID, 'buf': 64}])
+                add('tmpl=entries-around-32', f'C_GenerateKeyPair {m} public={np_} private={nq}', f)
+        for n in SZ:
+            for kind in ('aes128', 'rsa1024:pub', 'rsa1024:priv', 'ec_p256:priv', 'dsa1024:pub', 'dh1024:priv', 'ed25519:pub', 'data', 'x509'):
+                def f(E, kind=kind, n=n):
+                    base = K.template(kind); r = E.c('C_CreateObject', s=E.S, tmpl=sized(E, base, max(n, len(base)) if n >= 27 else n))
+                    if r['rv'] == 0: use_key(E.c, E.ck, E.S, r['h'], use_class(kind), E.haes)
+                add('tmpl=entries-around-32', f'C_CreateObject {kind} {n}', f)
+            for kind in ('aes128', 'rsa1024:priv', 'ec_p256:pub', 'data', 'x509'):
+                def f(E, kind=kind, n=n):
+                    r = E.c('C_CopyObject', s=E.S, o=E.k(kind), tmpl=sized(E, [('CKA_TOKEN', False)], n))
+                    if r['rv'] == 0:
+                        E.c('C_SetAttributeValue', s=E.S, o=r['h'], tmpl=sized(E, [], n)); E.c('C_GetAttributeValue', s=E.S, o=r['h'], tmpl=[{'t': E.ck[FG.ALL_ATTR_NAMES[i % 60]], 'buf': r_} for i, r_ in zip(range(n), [64, None, 8, 4096] * 16)])
+                        E.c('C_CopyObject', s=E.S, o=r['h'], tmpl=sized(E, [], n))
+                add('tmpl=entries-around-32', f'C_CopyObject/C_SetAttributeValue/C_GetAttributeValue {kind} {n}', f)
+            def f(E, n=n):
+                for base in ([], [('CKA_CLASS', 'CKO_SECRET_KEY')], [('CKA_TOKEN', True), ('CKA_KEY_TYPE', 'CKK_RSA')]):
+                    if E.c('C_FindObjectsInit', s=E.S, tmpl=sized(E, base, n) if n else [], **({'force_ptr': True} if n == 0 else {}))['rv'] == 0: E.c('C_FindObjects', s=E.S, max=8); E.c('C_FindObjectsFinal', s=E.S)
+            add('tmpl=entries-around-32', f'C_FindObjectsInit {n}', f)
+            for m, extra in (('CKM_AES_KEY_GEN', [('CKA_VALUE_LEN', 16)]), ('CKM_GENERIC_SECRET_KEY_GEN', [('CKA_VALUE_LEN', 32)]), ('CKM_DES3_KEY_GEN', []), ('CKM_DES2_KEY_GEN', []), ('CKM_DSA_PARAMETER_GEN', [('CKA_PRIME_BITS', 512)]), ('CKM_DH_PKCS_PARAMETER_GEN', [('CKA_PRIME_BITS', 512)])):
+                if m == 'CKM_DH_PKCS_PARAMETER_GEN' and n not in (0, 28, 29, 32, 33, 64): continue     # (slow: a safe-prime search per call)
+                def f(E, m=m, extra=extra, n=n): E.c('C_GenerateKey', s=E.S, mech=E.M(m), tmpl=sized(E, [('CKA_TOKEN', False)] + extra + [('CKA_ENCRYPT', True)], n))
+                add('tmpl=entries-around-32', f'C_GenerateKey {m} {n}', f)
+            for m, p, ukind, tk, tgt in (('CKM_AES_KEY_WRAP', None, 'aes128', 'aes256', 0), ('CKM_AES_KEY_WRAP_PAD', None, 'aes128', 'rsa1024:priv', 3), ('CKM_AES_KEY_WRAP_PAD', None, 'aes128', 'ec_p256:priv', 4), ('CKM_RSA_PKCS', None, 'rsa1024:priv', 'aes128', 0),
+                                     ('CKM_AES_CBC_PAD', {'hex': '00' * 16}, 'aes128', 'generic32', 1)):
+                def f(E, m=m, p=p, ukind=ukind, tk=tk, tgt=tgt, n=n):
+                    r = E.c('C_WrapKey', s=E.S, mech=E.M(m, p), wkey=E.k(ukind.replace(':priv', ':pub')), key=E.k(tk), buf=8192)
+                    if r['rv'] != 0: return
+                    r2 = E.c('C_UnwrapKey', s=E.S, mech=E.M(m, p), ukey=E.k(ukind), wrapped=r['out']['data'], tmpl=sized(E, UNWRAP_TARGETS[tgt][1], max(n, len(UNWRAP_TARGETS[tgt][1])) if n >= 27 else n))
+                    if r2['rv'] == 0: use_key(E.c, E.ck, E.S, r2['h'], UNWRAP_TARGETS[tgt][0], E.haes)
+                add('tmpl=entries-around-32', f'C_UnwrapKey {m} {tk} {n}', f)
+            for m in FG.op_mechs('V'):
+                def f(E, m=m, n=n):
+                    base = DERIVE_T + [('CKA_VALUE_LEN', 16)]
+                    r = E.c('C_DeriveKey', s=E.S, mech=wf_mech(E, H, m), key=right_key(E, m, 'priv'), tmpl=sized(E, base, max(n, len(base)) if n >= 27 else n))
+                    if r['rv'] == 0: use_key(E.c, E.ck, E.S, r['h'], 'generic', E.haes)
+                add('tmpl=entries-around-32', f'C_DeriveKey {m} {n}', f)
     elif family == 'misc':
         for kind in [k for k in K.kinds() if k in GOLDEN_TOK0]:
             def f(E, kind=kind):
@@ -592,8 +650,8 @@ def H_T(ck, pairs):
     """python template -> request entries without needing an executor"""
     g = FG.Gen.__new__(FG.Gen); g.ck = ck; return g.T(K.resolve(ck, list(pairs)))
 
-FAMILIES = ['damaged-key', 'copy-use', 'unwrap', 'mechparam', 'keytype', 'datalen', 'derive', 'template', 'misc', 'misc-state']
-BATCH = {'damaged-key': 12, 'copy-use': 8, 'unwrap': 40, 'mechparam': 30, 'keytype': 40, 'datalen': 12, 'derive': 40, 'template': 20, 'misc': 6, 'misc-state': 1}
+FAMILIES = ['damaged-key', 'copy-use', 'tmplsize', 'unwrap', 'mechparam', 'keytype', 'datalen', 'derive', 'template', 'misc', 'misc-state']
+BATCH = {'damaged-key': 12, 'copy-use': 8, 'tmplsize': 20, 'unwrap': 40, 'mechparam': 30, 'keytype': 40, 'datalen': 12, 'derive': 40, 'template': 20, 'misc': 6, 'misc-state': 1}
 
 def run_cells(env, family, cells, part, solo=False):
     """cells of one batch share an executor (a fresh session each); a death is re-run alone in a fresh executor to attribute it"""
